@@ -2,6 +2,7 @@ mod borrow;
 mod exec;
 mod gen;
 mod types;
+mod zst;
 
 fn usage() -> ! {
     eprintln!(
@@ -44,6 +45,9 @@ fn main() {
             }
             let off: u64 = args[4].parse().unwrap_or_else(|_| usage());
             exec::exec_child(&args[2], &args[3], off, args[5] == "1");
+        }
+        "zst" => {
+            std::process::exit(zst::main());
         }
         "borrow" => {
             std::process::exit(borrow::main(&args[2..]));
